@@ -79,7 +79,12 @@ pub struct Real {
     /// statement ids the plan marks removable
     pub plan_stmt_ids: Vec<u32>,
     pub warnings: Vec<(String, usize, usize)>,
+    /// what the CLI is expected to print for this text, with FILE_TOKEN in place of the file name
+    pub expected_stdout: String,
 }
+
+/// placeholder for the file name inside `Real::expected_stdout`
+pub const FILE_TOKEN: &str = "\u{1}FILE\u{1}";
 
 pub const MIB: usize = 1024 * 1024;
 
@@ -96,12 +101,16 @@ pub fn run_source(src: &str, cfg: RunCfg) -> Real {
     out.parse = collect(perr);
     if !perr.diagnostics.is_empty() {
         out.ending = "rejected".into();
+        out.expected_stdout = perr.render_ansi(src, FILE_TOKEN).to_string();
         return out;
     }
 
     let mut resolver = Resolver::with_facts_arena(&res_arena, &arena);
     resolver.resolve(root);
     out.sem = collect(&resolver.errors);
+    if !resolver.errors.diagnostics.is_empty() {
+        out.expected_stdout = resolver.errors.render_ansi(src, FILE_TOKEN).to_string();
+    }
     if resolver.errors.has_errors() {
         out.ending = "rejected".into();
         return out;
@@ -160,6 +169,13 @@ pub fn run_source(src: &str, cfg: RunCfg) -> Real {
     }
     out.counters = verif::counters().to_vec();
     out.output = runtime.output.iter().map(ToString::to_string).collect();
+    for line in &out.output {
+        out.expected_stdout.push_str(line);
+        out.expected_stdout.push('\n');
+    }
+    if !runtime.errors.diagnostics.is_empty() {
+        out.expected_stdout.push_str(&runtime.errors.render_ansi(src, FILE_TOKEN));
+    }
     out
 }
 
